@@ -101,8 +101,26 @@ func refUint(v []byte, max uint64) (uint64, vclass) {
 	return n.Val, vValid
 }
 
+// smallUintArray: the library's codec decodes a CBOR array of unsigned integers ≤ 255 into a Go
+// []byte (a byte slice is a slice of uint8), so wherever a byte string is expected such an array is
+// a lenient encoding of the same bytes: either reading is accepted.
+func smallUintArray(n *refcbor.Node) bool {
+	if n.Kind != refcbor.Array || n.Indef {
+		return false
+	}
+	for _, it := range n.Items {
+		if it.Kind != refcbor.Uint || it.Val > 255 {
+			return false
+		}
+	}
+	return true
+}
+
 func refString(v []byte, wantText bool) ([]byte, vclass) {
 	n, ok := parseExact(v)
+	if ok && !wantText && smallUintArray(n) {
+		return nil, vLenient
+	}
 	if !ok || n.Indef || (n.Kind != refcbor.Text && n.Kind != refcbor.Bytes) {
 		return nil, vMalformed
 	}
@@ -119,7 +137,7 @@ func refHash(v []byte) (string, vclass) {
 	}
 	a, b := n.Items[0], n.Items[1]
 	if (a.Kind != refcbor.Uint && a.Kind != refcbor.Nint) || a.Val > 1<<63-1 || b.Kind != refcbor.Bytes || b.Indef {
-		if (a.Kind == refcbor.Uint || a.Kind == refcbor.Nint) && a.Val <= 1<<63-1 && b.Kind == refcbor.Text {
+		if (a.Kind == refcbor.Uint || a.Kind == refcbor.Nint) && a.Val <= 1<<63-1 && (b.Kind == refcbor.Text || smallUintArray(b)) {
 			return "", vLenient
 		}
 		return "", vMalformed
@@ -495,7 +513,7 @@ func genValue(t *rapid.T, v uint8) string {
 		case 2: // trailing bytes
 			return genValidValue(t, v) + "00"
 		case 3: // wrong major type
-			return hx(rapid.SampledFrom([]*refcbor.Node{refcbor.U(5), refcbor.I(-3), refcbor.B([]byte{1, 2, 3, 4}), refcbor.T("x"), refcbor.A(), refcbor.M(), refcbor.Bool(true), refcbor.Null(), refcbor.Tg(1, refcbor.U(1)), refcbor.A(refcbor.U(1), refcbor.U(2))}).Draw(t, "wt"))
+			return hx(rapid.SampledFrom([]*refcbor.Node{refcbor.U(5), refcbor.I(-3), refcbor.B([]byte{1, 2, 3, 4}), refcbor.T("x"), refcbor.A(), refcbor.M(), refcbor.Bool(true), refcbor.Null(), refcbor.Tg(1, refcbor.U(1)), refcbor.A(refcbor.U(1), refcbor.U(2)), refcbor.A(refcbor.U(10), refcbor.U(0), refcbor.U(0), refcbor.U(7)), refcbor.A(refcbor.U(10), refcbor.U(0), refcbor.U(256), refcbor.U(7)), refcbor.A(refcbor.I(-16), refcbor.A(refcbor.U(1), refcbor.U(2), refcbor.U(3)))}).Draw(t, "wt"))
 		case 4: // non-CBOR garbage
 			return hex.EncodeToString(rapid.SliceOfN(rapid.Byte(), 1, 6).Draw(t, "garbage"))
 		case 5: // out-of-range integers
@@ -592,7 +610,7 @@ func TestC20(t *testing.T) {
 	r.SetRule("single-instruction", "exhaustive: each of the 16 variables (plus 16..20 unknown) × catalogue of 60 values (valid boundaries and malformed shapes) × role, alone and next to a DNS name; same oracle")
 	catalogue := []string{"", "00", "01", "09", "0a", "13", "14", "15", "16", "17", "1818", "1819", "18ff", "190100", "19ffff", "1a00010000", "1affffffff", "1b0000000100000000", "1b7fffffffffffffff", "1b8000000000000000", "1bffffffffffffffff",
 		"20", "3b7fffffffffffffff", "40", "4101", "43010203", "4401020304", "450102030405", "500102030405060708090a0b0c0d0e0f10", "5101020304050607080910111213141516aa", "60", "6161", "6b6f776e65722e6c6f63616c", "80", "8100", "8161", "81616d", "82616d01", "83616d0102", "8240", "a0", "a10102",
-		"f4", "f5", "f6", "f7", "e5", "f818", "c101", "9f", "9fff", "5f", "1c", "ff", "822f5820" + "00000000000000000000000000000000000000000000000000000000000000ab", "8205" + "40", "820540ff", "82182f40", "8220", "18", "19ff", "0000"}
+		"f4", "f5", "f6", "f7", "e5", "f818", "c101", "9f", "9fff", "5f", "1c", "ff", "822f5820" + "00000000000000000000000000000000000000000000000000000000000000ab", "8205" + "40", "820540ff", "82182f40", "8220", "18", "19ff", "0000", "840a000007", "840a0019010007", "822f83010203"}
 	ev.Enum(r, "single-instruction", true, func(yield func(rvDesc) bool) {
 		idx := 0
 		for v := 0; v <= 20; v++ {
